@@ -452,7 +452,109 @@ func (g *Gen) rowFor(t string, insert bool, pending map[string][]string) map[str
 
 // RefScenario: a new row whose set (or map) of weak references holds a row that never existed and a row that
 // the same commit garbage collects: the two are pruned in different passes over the references.
+// pruneAndFill: a row loses its last weak reference at commit (the target is deleted) while an operation of the
+// same transaction gives another column of the row, so far at its default, a value: the row's notification has
+// to say both.
+func (g *Gen) pruneAndFill() []AOp {
+	isRoot := g.rootSemantics()
+	type cand struct{ t, col, target, other string }
+	var cands []cand
+	for _, t := range g.tableNames() {
+		if !isRoot(t) {
+			continue
+		}
+		tb := g.S.Tables[t]
+		for _, cn := range tb.ColNames() {
+			c := tb.Cols[cn]
+			if k := KindOf(c); (k == "set" || k == "opt") && c.Key.Ref != "" && c.Key.RT == "weak" && c.Min == 0 && c.Mut && isRoot(c.Key.Ref) {
+				for _, on := range tb.ColNames() {
+					o := tb.Cols[on]
+					if ok := KindOf(o); on != cn && o.Mut && o.Min == 0 && (ok == "opt" || ok == "set") && o.Key.T == "string" && len(o.Key.Enum) == 0 && o.Key.Ref == "" {
+						cands = append(cands, cand{t, cn, c.Key.Ref, on})
+					}
+				}
+			}
+		}
+	}
+	if len(cands) == 0 {
+		return nil
+	}
+	c := cands[g.pick(len(cands))]
+	x := g.fresh()
+	xrow := g.MarkerRow(c.target, fmt.Sprintf("p%d", g.next), g.next)
+	g.next++
+	h := g.fresh()
+	hrow := g.MarkerRow(c.t, fmt.Sprintf("ph%d", g.next), g.next)
+	hrow[c.col] = []interface{}{x}
+	delete(hrow, c.other)
+	setup := []AOp{{Op: "insert", Table: c.target, UUID: x, Row: xrow}, {Op: "insert", Table: c.t, UUID: h, Row: hrow}}
+	then := []AOp{{Op: "update", Table: c.t, Where: byUUID(h), Row: map[string]interface{}{c.other: []interface{}{"filled"}}},
+		{Op: "delete", Table: c.target, Where: byUUID(x)}}
+	if g.chance(0.5) {
+		then[0], then[1] = then[1], then[0]
+	}
+	for _, ops := range [][]AOp{setup, then} {
+		for i := range ops {
+			ops[i].Normalize()
+		}
+	}
+	g.queue = append(g.queue, then)
+	g.count("weak-prune-and-fill")
+	return setup
+}
+
+// backToDefault: a scalar column of a row is given a value and, in the next transaction, its type's default
+// again (0, ""): the notification of the second change must say so.
+func (g *Gen) backToDefault() []AOp {
+	isRoot := g.rootSemantics()
+	type cand struct{ t, col string }
+	var cands []cand
+	for _, t := range g.tableNames() {
+		if !isRoot(t) {
+			continue
+		}
+		indexed := map[string]bool{}
+		for _, cn := range g.indexCols(t) {
+			indexed[cn] = true
+		}
+		for _, cn := range g.S.Tables[t].ColNames() {
+			c := g.S.Tables[t].Cols[cn]
+			if KindOf(c) == "atom" && c.Mut && !indexed[cn] && c.Key.Ref == "" && len(c.Key.Enum) == 0 && (c.Key.T == "integer" || c.Key.T == "string") {
+				cands = append(cands, cand{t, cn})
+			}
+		}
+	}
+	if len(cands) == 0 {
+		return nil
+	}
+	c := cands[g.pick(len(cands))]
+	u := g.fresh()
+	row := g.MarkerRow(c.t, fmt.Sprintf("d%d", g.next), g.next)
+	var some, def interface{} = "some", ""
+	if g.S.Tables[c.t].Cols[c.col].Key.T == "integer" {
+		some, def = 5, 0
+	}
+	row[c.col] = some
+	setup := []AOp{{Op: "insert", Table: c.t, UUID: u, Row: row}}
+	then := []AOp{{Op: "update", Table: c.t, Where: byUUID(u), Row: map[string]interface{}{c.col: def}}}
+	setup[0].Normalize()
+	then[0].Normalize()
+	g.queue = append(g.queue, then)
+	g.count("scalar-back-to-default")
+	return setup
+}
+
 func (g *Gen) RefScenario() []AOp {
+	if g.chance(0.25) {
+		if ops := g.backToDefault(); ops != nil {
+			return ops
+		}
+	}
+	if g.chance(0.35) {
+		if ops := g.pruneAndFill(); ops != nil {
+			return ops
+		}
+	}
 	isRoot := g.rootSemantics()
 	type cand struct{ t, col, target string }
 	var cands []cand
